@@ -18,10 +18,12 @@ import json, os, sys
 VERIF = os.environ.get("VERIF_DIR", "/verif")
 REPO = os.environ.get("VERIF_REPO", "/repo")
 
-def mount(src_dir, dst_dir, repl, recursive=True):
+def mount(src_dir, dst_dir, repl, recursive=True, skip=None):
     if not os.path.isdir(src_dir):
         return
     for root, dirs, files in os.walk(src_dir):
+        if skip and root == src_dir and skip in dirs:
+            dirs.remove(skip)
         dirs.sort()
         rel = os.path.relpath(root, src_dir)
         for f in sorted(files):
@@ -46,7 +48,8 @@ def main():
         mf = os.path.join(cdir, "MOUNT")
         if os.path.exists(mf):
             mnt = open(mf).read().strip()
-        mount(cdir, os.path.join(REPO, mnt), repl)
+        mount(cdir, os.path.join(REPO, mnt), repl, skip="inpkg")
+        mount(os.path.join(cdir, "inpkg"), REPO, repl)
         print(mnt)
     for extra in sys.argv[3:]:
         with open(extra) as fh:
